@@ -109,6 +109,19 @@ def handle (req : J) : Except String J := do
         ("nested", encE (fun (p : List Node × List (String × String)) =>
             Lean.Json.arr #[.arr (p.1.map encNode).toArray,
               .arr (p.2.map (fun (a, b) => Lean.Json.arr #[.str a, .str b])).toArray]) (composeNested r.named))]))
+  | "strtype" => do
+    let s ← asStr (← field req "in")
+    let lower ← asStr (← field req "lower")
+    let i := parseInt s.toList
+    let b := parseBool (fun _ => lower) s
+    pure (okJ (Lean.Json.mkObj [
+      ("int", match i with | some v => .str (String.ofList (renderInt v)) | none => .null),
+      ("bool", match b with | some v => .bool v | none => .null)]))
+  | "pylex" => do
+    let s ← asStr (← field req "in")
+    pure (okJ (match pyLexStr s.toList with
+      | some cps => .arr (cps.map (fun (n : Nat) => Lean.Json.num (Lean.JsonNumber.fromNat n))).toArray
+      | none => .null))
   | "closure" => do
     let n ← asNat (← field req "n")
     let edges ← (← asArr (← field req "edges")).toList.mapM (fun e => do
